@@ -1,7 +1,7 @@
 // property: C05
 // harness: c05::c05_facet_key_injective_with_reuse
 // module: c05
-// failing checks: "facet key is injective on sorted key tuples"
+// failing checks: facet key is injective on sorted key tuples
 // replay: ./check replay /verif/replays/C05/c05_facet_key_injective_with_reuse.rs
 /// Test generated for harness `c05::c05_facet_key_injective_with_reuse` 
 ///
